@@ -18,7 +18,7 @@ from typing import Dict, List, Optional, Set, Tuple
 
 from ..cfg import cfg_of
 from ..flow import defuse, names_in
-from ..guards import path_conditions, src
+from ..guards import path_conditions, rejects, src
 from ..index import AnalysisError, FuncInfo, Index, call_name, dotted, enclosing_stmt, fold_const, is_const, walk_no_nested
 from ..report import Results
 
@@ -122,14 +122,15 @@ def run(res: Results, idx: Index, tier: str) -> None:
     # _validate_layout_indices
     vf = idx.func(CA, "_validate_layout_indices")
     checks = {
-        "non-integer": lambda t: any(isinstance(c, ast.Call) and (call_name(c) or "") == "isinstance" for c in ast.walk(t)),
-        "out-of-range": lambda t: any(isinstance(c, ast.Compare) and isinstance(c.ops[0], (ast.Lt, ast.GtE, ast.Gt, ast.LtE)) for c in ast.walk(t)) and "upper_bound" in names_in(t),
+        "non-integer": lambda t: isinstance(t, ast.UnaryOp) and isinstance(t.op, ast.Not) and any(isinstance(c, ast.Call) and (call_name(c) or "") == "isinstance" for c in ast.walk(t)),
+        "out-of-range": lambda t: isinstance(t, ast.Compare) and isinstance(t.ops[0], (ast.GtE, ast.Gt)) and "upper_bound" in names_in(t),
+        "negative": lambda t: isinstance(t, ast.Compare) and isinstance(t.ops[0], ast.Lt) and isinstance(t.comparators[0], ast.Constant) and t.comparators[0].value == 0,
         "duplicate": lambda t: isinstance(t, ast.Compare) and isinstance(t.ops[0], ast.In),
     }
     gv = cfg_of(vf.node)
     for cname, pred in checks.items():
         key = f"{CA}::_validate_layout_indices::{cname}"
-        cands = [n for n in walk_no_nested(vf.node) if isinstance(n, ast.If) and pred(n.test) and any(isinstance(s, ast.Raise) for s in n.body)]
+        cands = [n for n in walk_no_nested(vf.node) if isinstance(n, ast.If) and rejects(n.test, pred) and any(isinstance(s, ast.Raise) for s in n.body)]
         if cands:
             res.ok("R-C12b", f"{CA}:{cands[0].lineno}", key, f"`if {src(cands[0].test, 60)}: raise`", vf.qualname)
         else:
